@@ -18,6 +18,8 @@ Decides:
  F final not caught   parse_option / fallback never convert a ParseFailure (shared with C06.K3).
  C command outcome  a matched command returns the (final) outcome of its first inner run; a retry of an adjacent
                    command can only replace a failure by a success (shared with C08).
+ D deeper outcome   between alternatives the branch that entered a subcommand decides, success or failure: the help (or
+                   error) produced inside a subcommand is never replaced by a shallower alternative (shared with C07/C08).
  S sequential composition (finding)  in construct! a later field's outcome is dropped without inspection when an
                    earlier field fails, so an inner command's help output can be lost (known finding).
 Does not decide: which of several failing fields is reported for a given line."""
@@ -32,7 +34,7 @@ import scopes, c06
 LEVEL = 'other'
 EXPLANATION = __doc__
 ASSUMPTIONS = ['the help item is an ordinary Long/Short item (tokenizer, C02/C09)']
-FLOORS = {'R.returns': 6, 'H.help-first': 3, 'P.payload': 3, 'I.info': 4, 'A.ambiguity': 2, 'T.combine': 289, 'B.best-effort': 1, 'F.final': 10, 'S.sequential': 3, 'C.command-outcome': 2}
+FLOORS = {'R.returns': 6, 'H.help-first': 3, 'P.payload': 3, 'I.info': 4, 'A.ambiguity': 2, 'T.combine': 289, 'B.best-effort': 1, 'F.final': 10, 'S.sequential': 3, 'C.command-outcome': 2, 'D.deeper-outcome': 8}
 
 def run(ctx):
     cfgs = ['none', 'all'] if ctx.tier == 'quick' else ['none', 'all', 'ac', 'doc', 'dull']
@@ -51,6 +53,8 @@ def run(ctx):
         keep = [o for o in ctx.obs[before:] if o.key.endswith('failure-is-first-outcome') or o.key.endswith('ok-only-from-inner-run')]
         for o in keep: o.rule = 'C.command-outcome'
         ctx.obs = ctx.obs[:before] + keep
+        import c07
+        c08.keep_only(ctx, lambda: c07.table(ctx, cfg, fs), lambda o: 'depth=Less' in o.key or 'depth=Greater' in o.key, 'D.deeper-outcome')
     sequential(ctx)
 
 def describe_return(b, i, k, st):
